@@ -143,6 +143,11 @@ type Machine struct {
 	topicValidator Value
 	pinned    []ModelVal
 	coros     []*coro
+	protected map[*Value]*protInfo
+	interfere map[*Value][]Value // mutex -> closures run at each acquisition
+	shared    map[*Value]*protInfo
+	inHavoc   bool
+	protSeen  map[*Value]bool
 	curCoro   *coro
 	timers    []*Native
 	pinnedOn  bool
@@ -820,7 +825,11 @@ func (m *Machine) visitInstr(fr *frame, instr ssa.Instruction) continuation {
 		m.chanSend(fr, fr.get(instr.Chan), fr.get(instr.X))
 
 	case *ssa.Store:
-		store(m.deref(fr, fr.get(instr.Addr)), fr.get(instr.Val))
+		addr := m.deref(fr, fr.get(instr.Addr))
+		if m.protected != nil || m.shared != nil {
+			m.checkAccess(addr, true)
+		}
+		store(addr, fr.get(instr.Val))
 
 	case *ssa.If:
 		c := m.term(fr.get(instr.Cond))
@@ -1152,4 +1161,59 @@ func (m *Machine) initAllowed(p *ssa.Package) bool {
 		}
 	}
 	return false
+}
+
+// ---------------------------------------------------------------------------
+// lock discipline (rely/guarantee): protected cells must only be touched while
+// their mutex is held; interference closures run whenever the mutex is
+// (re)acquired, standing for what other goroutines did meanwhile.
+
+type protInfo struct {
+	mutex *Value
+	label string
+	havoc Value // for unprotected shared cells: run before each read
+}
+
+func (m *Machine) inHarness() bool {
+	if m.cur == nil || m.cur.fn == nil {
+		return false
+	}
+	fn := m.cur.fn
+	for fn.Parent() != nil {
+		fn = fn.Parent()
+	}
+	return strings.Contains(m.eng.prog.Fset.Position(fn.Pos()).Filename, "zz_vrf_")
+}
+
+func (m *Machine) checkAccess(addr *Value, write bool) {
+	if m.inHavoc || m.inHarness() {
+		return
+	}
+	if pi, ok := m.protected[addr]; ok {
+		n := m.natives[pi.mutex]
+		held := false
+		if n != nil {
+			if d, ok := n.Data.(*mutexData); ok {
+				held = d.writer || (!write && d.readers > 0)
+			}
+		}
+		if !held && !m.protSeen[addr] {
+			if m.protSeen == nil {
+				m.protSeen = map[*Value]bool{}
+			}
+			m.protSeen[addr] = true
+			kind := "read"
+			if write {
+				kind = "write"
+			}
+			m.recordViolation(pi.label+".guarded-access", fmt.Sprintf("%s of a protected field without holding its mutex at %s", kind, m.where()))
+		}
+	}
+	if pi, ok := m.shared[addr]; ok && !write && pi.havoc != nil {
+		m.inHavoc = true
+		saved := m.cur
+		m.call(m.cur, 0, pi.havoc, nil)
+		m.cur = saved
+		m.inHavoc = false
+	}
 }
